@@ -10,7 +10,7 @@
    [rvl k V] is the revision held for key k.  Views are compared by revision: the code swallows an event whose
    revision equals the cached one, so contents agree exactly when a revision identifies the content of a key. *)
 From Coq Require Import List NArith Arith Bool.
-From Verif.C26 Require Import Model Spec Proofs Steps Syncer Shape Main Content Tidy Oracle.
+From Verif.C26 Require Import Model Spec Proofs Steps Syncer Shape Main Content Tidy Oracle Revs.
 Import ListNotations.
 
 (* Convergence: after ANY sequence of list results, list errors, watch-creation outcomes, watch events, watch errors,
@@ -169,6 +169,52 @@ Theorem c26_scripted_runs_are_interleavings : forall ord gs steps s' os,
   exists es, interleaving ord gs (all_ins gs steps) es /\ proc (syncer0 gs) es = ((cstat s', wstatus s', []), concat os).
 Proof. exact syncer_run_interleaving. Qed.
 Print Assumptions c26_scripted_runs_are_interleavings.
+
+(* ======================= error / timeout paths and the revision discipline of a cache =======================
+   [req_of c] = the call the cache blocks in next and the revision it passes (List and Watch are always passed
+   wc.currentWatchRevision); the correspondence run compares it with the real cache after every step. *)
+
+(* A Watch is never created from revision "0": for every input sequence, whenever the cache is about to call Watch. *)
+Theorem c26_watch_never_from_zero : forall ord g ins c rs,
+  cache_run ord g (fst cache_init) ins = Some (c, rs) -> ph c = PWatch -> N.eqb (rev c) 0 = false.
+Proof. intros ord g ins c rs H. eapply run_watch_rev; [|exact H]. cbv. discriminate. Qed.
+Print Assumptions c26_watch_never_from_zero.
+
+(* An expired / too-large / gone answer (to List, to Watch, or as a watch error event) is never treated as a lost
+   connection, WHATEVER the timeout flag, refreshes the connection time, and is followed by a revision-less List. *)
+Theorem c26_expired_forces_full_relist : forall ord g c t r c' rs,
+  cache_step ord g c t r = Some (c', rs) -> expired_input r = true ->
+  req_of c' = (PList, 0%N) /\ stale c' = false /\ ~ In ResBackendErr rs.
+Proof. exact expired_relists. Qed.
+Print Assumptions c26_expired_forces_full_relist.
+
+(* The backend error behind SyncFailed is sent only by a failed List that is not an expiry, and only after the retry
+   timeout elapsed without contact. *)
+Theorem c26_syncfailed_only_after_timeout : forall ord g c t r c' rs,
+  cache_step ord g c t r = Some (c', rs) -> In ResBackendErr rs -> r = RListErr LOther /\ stale c || t = true.
+Proof. exact backend_err_only_after_timeout. Qed.
+Print Assumptions c26_syncfailed_only_after_timeout.
+
+(* A completed List with a usable revision is followed by a Watch from exactly the List's revision. *)
+Theorem c26_list_then_watch_from_list_revision : forall ord g c t items lrev c' rs,
+  cache_step ord g c t (RListOk items lrev) = Some (c', rs) -> zero_rev lrev = false -> req_of c' = (PWatch, lrev).
+Proof. exact list_then_watch_from_list_rev. Qed.
+Print Assumptions c26_list_then_watch_from_list_revision.
+
+(* A bookmark sends nothing and moves the revision: when the watch then ends the next Watch starts from it (a bookmark
+   at "0" forces a full List instead). *)
+Theorem c26_bookmark_then_rewatch : forall ord g c t r t' c1 rs1 c2 rs2,
+  cache_step ord g c t (REvent (EvBookmark r)) = Some (c1, rs1) ->
+  cache_step ord g c1 t' (REvent EvClosed) = Some (c2, rs2) ->
+  rs1 = [] /\ req_of c2 = (if N.eqb r 0 then (PList, 0%N) else (PWatch, r)).
+Proof. exact bookmark_then_rewatch. Qed.
+Print Assumptions c26_bookmark_then_rewatch.
+
+(* The run evaluated by check_case (with the requests observed) is the scripted run the theorems are about. *)
+Theorem c26_observed_runs_are_scripted_runs : forall ord gs steps s s' mo,
+  syncer_run_obs ord gs s steps = Some (s', mo) -> syncer_run ord gs s steps = Some (s', map fst mo).
+Proof. intros ord gs steps. exact (syncer_run_obs_outs ord gs steps). Qed.
+Print Assumptions c26_observed_runs_are_scripted_runs.
 
 (* Non-vacuity: a run with a list, an unobserved deletion found by the resync, a lost connection and recovery. *)
 Example c26_example :
